@@ -203,3 +203,339 @@ Proof.
     rewrite (proj2 (mem_In _ _) (In_get_values _ _ _ Hv)). cbn [negb].
     rewrite Hg. reflexivity.
 Qed.
+
+(* ---- C05 -------------------------------------------------------------------------------- *)
+
+Lemma first_split : forall (q : val -> bool) ks,
+  (exists k, In k ks /\ q k = true) ->
+  exists pre l post, ks = pre ++ l :: post /\ q l = true /\ forall p, In p pre -> q p = false.
+Proof.
+  intros q ks; induction ks as [|a t IH]; intros (k & Hin & Hq); [destruct Hin|].
+  destruct (q a) eqn:Ea.
+  - exists [], a, t. split; [reflexivity|]. split; [exact Ea|]. intros p [].
+  - destruct Hin as [Hin|Hin]; [subst a; congruence|].
+    destruct (IH (ex_intro _ k (conj Hin Hq))) as (pre & l & post & E & Hl & Hpre).
+    exists (a :: pre), l, post. split; [rewrite E; reflexivity|]. split; [exact Hl|].
+    intros p [Hp|Hp]; [subst p; exact Ea | apply Hpre; exact Hp].
+Qed.
+
+Lemma num_le_pinf : forall x, is_num x = true -> num_le x VPInf = true.
+Proof. intros x H; destruct x; try discriminate H; reflexivity. Qed.
+
+(* with the +inf sentinel every number of the carrier finds a leader *)
+Lemma quant_num_lookup : forall fmt st x,
+  coherent fmt st -> nan_ok st -> sentinel st -> st_kind st = Quant -> is_num x = true ->
+  exists i l lab, nth_error (keys (st_order st)) i = Some l /\ In l (quant_leaders st) /\
+                  num_le x l = true /\ label_at fmt st i = Some lab /\
+                  transform_cell st x = Ok (reinstate st (OLab lab)).
+Proof.
+  intros fmt st x Hc Hn Hs Hk Hx. destruct (Hs Hk) as [zs Hzs].
+  destruct (first_split (num_le x) (quant_leaders st)) as (pre & l & post & E & Hl & Hpre).
+  { exists VPInf. split; [|apply num_le_pinf; exact Hx].
+    rewrite Hzs. apply in_or_app. right. left. reflexivity. }
+  assert (Hql : In l (quant_leaders st)) by (rewrite E; apply in_elt).
+  assert (Hin : In l (keys (st_order st))).
+  { unfold quant_leaders in Hql. apply filter_In in Hql. exact (proj1 Hql). }
+  destruct (In_nth_error _ _ Hin) as [i Hi].
+  destruct (transform_is_lookup_quant fmt st x pre l post i Hc Hk Hn Hs Hx E Hpre Hl Hi)
+    as (lab & Hlab & Ht).
+  exists i, l, lab. repeat split; assumption.
+Qed.
+
+Lemma qual_cell_unknown : forall st c,
+  is_nan c = false -> ~ In c (values (st_order st)) ->
+  qual_cell st c =
+  if py_neq c (st_nan st) && mem (st_default st) (values (st_order st))
+  then Ok (reinstate st (match lget (st_default st) (st_lpv st) with
+                         | Some l => OLab l
+                         | None => ORaw (st_default st)
+                         end))
+  else AssertErr.
+Proof.
+  intros st c Hc Hnin. apply mem_false in Hnin. unfold qual_cell.
+  rewrite Hc. cbv zeta. rewrite Hc. rewrite Hnin. cbn [negb andb].
+  destruct (py_neq c (st_nan st) && mem (st_default st) (values (st_order st))) eqn:E.
+  - apply andb_prop in E. destruct E as [_ E]. rewrite E. reflexivity.
+  - rewrite Hnin. reflexivity.
+Qed.
+
+Lemma transform_nan_unknown : forall st,
+  nan_ok st -> ~ In (st_nan st) (values (st_order st)) -> transform_cell st VNaN = AssertErr.
+Proof.
+  intros st Hn Hnin. unfold transform_cell. destruct (st_kind st).
+  - unfold quant_cell. cbn [is_nan].
+    destruct (contains (st_order st) (st_nan st)) eqn:E; [|reflexivity].
+    apply contains_spec in E. contradiction.
+  - unfold qual_cell. cbn [is_nan]. rewrite (nan_ok_truthy st Hn).
+    cbv zeta. rewrite (nan_ok_is_nan st Hn).
+    rewrite (proj2 (mem_false _ _) Hnin).
+    rewrite (py_neq_spec _ _ (nan_ok_not_nan st Hn)), val_eqb_refl. cbn [negb andb].
+    rewrite (proj2 (mem_false _ _) Hnin). reflexivity.
+Qed.
+
+Theorem transform_total : forall fmt st c,
+  coherent fmt st -> nan_ok st -> sentinel st ->
+  (st_kind st = Quant -> is_str c = false) ->
+  (transform_cell st c = AssertErr /\ reject st c) \/
+  (exists o, transform_cell st c = Ok o /\ in_label_set fmt st o).
+Proof.
+  intros fmt st c Hc Hn Hs Hstr. destruct (val_eq_dec c VNaN) as [Hcn|Hcn].
+  - subst c. destruct (in_dec val_eq_dec (st_nan st) (values (st_order st))) as [Hin|Hnin].
+    + right. destruct (in_values_group _ _ (proj1 Hc) Hin) as (i & k & Hi & Hv).
+      destruct (transform_nan fmt st i k Hc Hn Hs Hi Hv) as (l & Hl & Ht).
+      exists (if st_dropna st then OLab l else OMissing). split; [exact Ht|].
+      destruct (st_dropna st) eqn:Ed; cbn [in_label_set];
+        [eapply label_at_In; eauto | exact Ed].
+    + left. split; [apply transform_nan_unknown; assumption|].
+      left. split; [reflexivity | exact Hnin].
+  - destruct (st_kind st) eqn:Ek.
+    + right. assert (Hx : is_num c = true).
+      { specialize (Hstr eq_refl). destruct c; try reflexivity; try discriminate Hstr.
+        congruence. }
+      destruct (quant_num_lookup fmt st c Hc Hn Hs Ek Hx)
+        as (i & l & lab & _ & _ & _ & Hlab & Ht).
+      exists (reinstate st (OLab lab)). split; [exact Ht|].
+      apply reinstate_in_label_set. eapply label_at_In; eauto.
+    + unfold transform_cell. rewrite Ek.
+      destruct (in_dec val_eq_dec c (values (st_order st))) as [Hin|Hnin].
+      * right. rewrite (qual_cell_known st c (is_nan_false c Hcn) Hin).
+        destruct (label_of_value fmt st c Hc Hn Hs Hin) as (l & Hl & Hg). rewrite Hg.
+        exists (reinstate st (OLab l)). split; [reflexivity|].
+        apply reinstate_in_label_set; exact Hl.
+      * rewrite (qual_cell_unknown st c (is_nan_false c Hcn) Hnin).
+        destruct (py_neq c (st_nan st) && mem (st_default st) (values (st_order st))) eqn:E.
+        -- right. apply andb_prop in E. destruct E as [_ E]. apply mem_In in E.
+           destruct (label_of_value fmt st _ Hc Hn Hs E) as (l & Hl & Hg). rewrite Hg.
+           exists (reinstate st (OLab l)). split; [reflexivity|].
+           apply reinstate_in_label_set; exact Hl.
+        -- left. split; [reflexivity|]. right. split; [exact Ek|].
+           split; [exact Hcn|]. split; [exact Hnin|].
+           apply andb_false_iff in E. destruct E as [E|E].
+           ++ left. unfold py_neq in E. apply negb_false_iff in E. apply py_eq_true; exact E.
+           ++ right. apply mem_false; exact E.
+Qed.
+
+Theorem finite_never_rejected : forall fmt st z,
+  coherent fmt st -> nan_ok st -> sentinel st -> st_kind st = Quant ->
+  exists l, In l (labels_of fmt st) /\ transform_cell st (VNum z) = Ok (reinstate st (OLab l)).
+Proof.
+  intros fmt st z Hc Hn Hs Hk.
+  destruct (quant_num_lookup fmt st (VNum z) Hc Hn Hs Hk eq_refl)
+    as (i & l & lab & _ & _ & _ & Hlab & Ht).
+  exists lab. split; [eapply label_at_In; eauto | exact Ht].
+Qed.
+
+(* CHANGED: extra hypothesis [st_default st <> VNaN].  Without it the first conjunct fails:
+   order of_list [VNaN; VStr "N"], str_nan = VStr "N", str_default = VNaN, dropna = true, OStr:
+   an unseen c is sent to the group of the default VNaN (label VNaN) whereas the cell VNaN
+   itself is first filled with str_nan and gets the label "N". *)
+Theorem unseen_goes_to_default : forall fmt st c,
+  coherent fmt st -> nan_ok st -> st_kind st = Qual ->
+  c <> VNaN -> ~ In c (values (st_order st)) -> c <> st_nan st ->
+  In (st_default st) (values (st_order st)) ->
+  st_default st <> VNaN ->
+  transform_cell st c = transform_cell st (st_default st) /\
+  exists l, In l (labels_of fmt st) /\ transform_cell st c = Ok (reinstate st (OLab l)).
+Proof.
+  intros fmt st c Hc Hn Hk Hcn Hnin Hcnan Hd Hdn.
+  assert (Hs : sentinel st) by (intro HQ; congruence).
+  assert (Ht : transform_cell st c =
+               Ok (reinstate st (match lget (st_default st) (st_lpv st) with
+                                 | Some l => OLab l
+                                 | None => ORaw (st_default st)
+                                 end))).
+  { unfold transform_cell. rewrite Hk.
+    rewrite (qual_cell_unknown st c (is_nan_false c Hcn) Hnin).
+    rewrite (py_neq_spec _ _ (nan_ok_not_nan st Hn)).
+    rewrite (proj2 (val_eqb_neq c (st_nan st)) Hcnan).
+    rewrite (proj2 (mem_In _ _) Hd). reflexivity. }
+  split.
+  - rewrite Ht. unfold transform_cell. rewrite Hk.
+    rewrite (qual_cell_known st _ (is_nan_false _ Hdn) Hd). reflexivity.
+  - destruct (label_of_value fmt st _ Hc Hn Hs Hd) as (l & Hl & Hg).
+    exists l. split; [exact Hl|]. rewrite Ht, Hg. reflexivity.
+Qed.
+
+(* ---- C03, transform half ---------------------------------------------------------------- *)
+
+Lemma num_le_trans : forall a b c, num_le a b = true -> num_le b c = true -> num_le a c = true.
+Proof.
+  intros [x| | |s|] [y| | |t|] [z| | |u|] H1 H2; cbn [num_le] in *;
+    try discriminate; try reflexivity.
+  apply Z.leb_le in H1. apply Z.leb_le in H2. apply Z.leb_le. lia.
+Qed.
+
+Lemma select_first_filter_split : forall lpv x (p : val -> bool) pre l post,
+  (forall k, In k pre -> p k && num_le x k = false) -> p l = true -> num_le x l = true ->
+  select_first lpv x (filter p (pre ++ l :: post)) =
+  match lget l lpv with Some lab => OLab lab | None => ORaw x end.
+Proof.
+  intros lpv x p pre l post Hpre Hpl Hle. rewrite filter_app. rewrite select_first_skip.
+  - cbn [filter]. rewrite Hpl. cbn [select_first]. rewrite Hle. reflexivity.
+  - intros q Hq. apply filter_In in Hq. destruct Hq as [Hq Hp].
+    specialize (Hpre q Hq). rewrite Hp in Hpre. exact Hpre.
+Qed.
+
+Lemma app_split_le : forall (A : Type) (pre pre' : list A) l l' post post',
+  pre ++ l :: post = pre' ++ l' :: post' -> ~ In l' pre ->
+  (List.length pre <= List.length pre')%nat.
+Proof.
+  intros A pre pre' l l' post post' E Hnin.
+  destruct (le_lt_dec (List.length pre) (List.length pre')) as [Hle|Hlt]; [exact Hle|].
+  exfalso. apply Hnin.
+  assert (H : nth_error (pre ++ l :: post) (List.length pre') = Some l').
+  { rewrite E, nth_error_app2, Nat.sub_diag by lia. reflexivity. }
+  rewrite nth_error_app1 in H by lia. eapply nth_error_In; eauto.
+Qed.
+
+(* the NaN reinstatement never hits the rank of a leader other than str_nan *)
+Lemma reinstate_leader_id : forall fmt st l lab,
+  coherent fmt st -> st_odt st = OFloat -> nan_separate st ->
+  In l (keys (st_order st)) -> l <> st_nan st -> lget l (st_lpv st) = Some lab ->
+  reinstate st (OLab lab) = OLab lab.
+Proof.
+  intros fmt st l lab Hc Ho Hsep Hin Hne Hg. unfold reinstate.
+  destruct (st_dropna st) eqn:Ed; [reflexivity|].
+  destruct (lget (st_nan st) (st_lpv st)) as [ln|] eqn:Eln; [|reflexivity].
+  destruct Hsep as [Hd|[Hnin|Hnv]].
+  - congruence.
+  - rewrite label_eqb_neq; [reflexivity|].
+    exact (float_labels_distinct fmt st l (st_nan st) lab ln Hc Ho Hin Hnin Hne Hg Eln).
+  - rewrite (proj2 Hc) in Eln. unfold labels_per_values in Eln.
+    rewrite lpv_none in Eln by exact Hnv. discriminate Eln.
+Qed.
+
+Lemma monotone_one : forall fmt st x pre l post,
+  coherent fmt st -> nan_ok st -> sentinel st -> st_kind st = Quant -> st_odt st = OFloat ->
+  nan_separate st -> is_num x = true ->
+  keys (st_order st) = pre ++ l :: post ->
+  (forall k, In k pre -> py_neq k (st_nan st) && num_le x k = false) ->
+  py_neq l (st_nan st) = true -> num_le x l = true ->
+  transform_cell st x = Ok (OLab (LRank (List.length pre))).
+Proof.
+  intros fmt st x pre l post Hc Hn Hs Hk Ho Hsep Hx E Hpre Hpl Hle.
+  assert (Hi : nth_error (keys (st_order st)) (List.length pre) = Some l).
+  { rewrite E, nth_error_app2, Nat.sub_diag by lia. reflexivity. }
+  assert (Hin : In l (keys (st_order st))) by (eapply nth_error_In; eauto).
+  destruct (label_of_member fmt st _ l l Hc Hn Hs Hi (WF_key_get _ _ (proj1 Hc) Hin))
+    as (lab & Hlab & Hg).
+  assert (Hrank : lab = LRank (List.length pre)).
+  { unfold label_at, labels_of in Hlab. rewrite Ho in Hlab.
+    assert (Hlt : (List.length pre <
+                   List.length (get_labels (st_kind st) OFloat fmt (st_nan st)
+                                           (keys (st_order st))))%nat)
+      by (apply nth_error_Some; congruence).
+    rewrite (float_labels_are_ranks _ _ _ _ _ Hlt) in Hlab. congruence. }
+  subst lab.
+  rewrite (quant_cell_num fmt st x Hc Hn Hs Hk Hx). unfold quant_leaders. rewrite E.
+  rewrite (select_first_filter_split _ x (fun v => py_neq v (st_nan st)) pre l post Hpre Hpl Hle).
+  rewrite Hg.
+  rewrite (reinstate_leader_id fmt st l _ Hc Ho Hsep Hin
+             (py_neq_true l _ (nan_ok_not_nan st Hn) Hpl) Hg).
+  reflexivity.
+Qed.
+
+Theorem transform_monotone : forall fmt st x x',
+  coherent fmt st -> nan_ok st -> sentinel st -> st_kind st = Quant -> st_odt st = OFloat ->
+  nan_separate st ->
+  is_num x = true -> is_num x' = true -> num_le x x' = true ->
+  exists i i', transform_cell st x = Ok (OLab (LRank i)) /\
+               transform_cell st x' = Ok (OLab (LRank i')) /\ (i <= i')%nat.
+Proof.
+  intros fmt st x x' Hc Hn Hs Hk Ho Hsep Hx Hx' Hle.
+  destruct (Hs Hk) as [zs Hzs].
+  assert (HPinf : In VPInf (keys (st_order st)) /\ py_neq VPInf (st_nan st) = true).
+  { apply (proj1 (filter_In (fun v => py_neq v (st_nan st)) VPInf (keys (st_order st)))).
+    change (In VPInf (quant_leaders st)). rewrite Hzs. apply in_or_app. right. left.
+    reflexivity. }
+  destruct (first_split (fun k => py_neq k (st_nan st) && num_le x' k) (keys (st_order st)))
+    as (pre' & l' & post' & E' & Hl' & Hpre').
+  { exists VPInf. split; [exact (proj1 HPinf)|].
+    rewrite (proj2 HPinf), (num_le_pinf x' Hx'). reflexivity. }
+  cbv beta in Hl', Hpre'. apply andb_prop in Hl'. destruct Hl' as [Hpl' Hle'].
+  pose proof (num_le_trans _ _ _ Hle Hle') as Hxl'.
+  destruct (first_split (fun k => py_neq k (st_nan st) && num_le x k) (keys (st_order st)))
+    as (pre & l & post & E & Hl & Hpre).
+  { exists l'. split; [rewrite E'; apply in_elt|]. rewrite Hpl', Hxl'. reflexivity. }
+  cbv beta in Hl, Hpre. apply andb_prop in Hl. destruct Hl as [Hpl Hlel].
+  assert (Hlen : (List.length pre <= List.length pre')%nat).
+  { apply (app_split_le _ pre pre' l l' post post'); [congruence|].
+    intro Hin. specialize (Hpre _ Hin). rewrite Hpl', Hxl' in Hpre. discriminate Hpre. }
+  exists (List.length pre), (List.length pre'). split; [|split; [|exact Hlen]].
+  - exact (monotone_one fmt st x pre l post Hc Hn Hs Hk Ho Hsep Hx E Hpre Hpl Hlel).
+  - exact (monotone_one fmt st x' pre' l' post' Hc Hn Hs Hk Ho Hsep Hx' E' Hpre' Hpl' Hle').
+Qed.
+
+(* ---- right-closed intervals ------------------------------------------------------------- *)
+
+Lemma sentinel_sorted : forall zs, StronglySorted Z.lt zs ->
+  StronglySorted (fun a b => num_le a b = true) (map VNum zs ++ [VPInf]).
+Proof.
+  intros zs Hss; induction Hss as [|z zs Hss IH Hall]; cbn [map app].
+  - repeat constructor.
+  - constructor; [exact IH|]. apply Forall_app. split.
+    + apply Forall_forall. intros v Hv. apply in_map_iff in Hv.
+      destruct Hv as (y & Hy & Hin). subst v. cbn [num_le]. apply Z.leb_le.
+      pose proof (proj1 (Forall_forall _ _) Hall y Hin) as Hlt. lia.
+    + constructor; [reflexivity|constructor].
+Qed.
+
+Lemma sorted_before : forall (R : val -> val -> Prop) pre a rest p,
+  StronglySorted R (pre ++ a :: rest) -> In p pre -> R p a.
+Proof.
+  intros R pre; induction pre as [|q t IH]; intros a rest p H Hin; [destruct Hin|].
+  cbn [app] in H. apply StronglySorted_inv in H. destruct H as [Hss Hall].
+  destruct Hin as [Hin|Hin].
+  - subst q. exact (proj1 (Forall_forall _ _) Hall a (in_elt _ _ _)).
+  - eapply IH; eauto.
+Qed.
+
+Theorem transform_interval : forall fmt st zs x pre l post i,
+  coherent fmt st -> nan_ok st -> st_kind st = Quant ->
+  quant_leaders st = map VNum zs ++ [VPInf] -> StronglySorted Z.lt zs ->
+  is_num x = true ->
+  quant_leaders st = pre ++ l :: post ->
+  (forall p, nth_error pre (List.length pre - 1) = Some p -> num_le x p = false) ->
+  num_le x l = true ->
+  nth_error (keys (st_order st)) i = Some l ->
+  exists lab, label_at fmt st i = Some lab /\ transform_cell st x = Ok (reinstate st (OLab lab)).
+Proof.
+  intros fmt st zs x pre l post i Hc Hn Hk Hzs Hsort Hx Hql Hlast Hle Hi.
+  assert (Hs : sentinel st) by (intros _; exists zs; exact Hzs).
+  apply (transform_is_lookup_quant fmt st x pre l post i); try assumption.
+  intros p Hp.
+  assert (Hne : pre <> []) by (intro He; subst pre; destruct Hp).
+  destruct (exists_last Hne) as (pre0 & a & Epre). subst pre.
+  assert (Ha : num_le x a = false).
+  { apply Hlast. rewrite app_length. cbn [List.length].
+    rewrite nth_error_app2 by lia.
+    replace (List.length pre0 + 1 - 1 - List.length pre0)%nat with 0%nat by lia.
+    reflexivity. }
+  apply in_app_or in Hp. destruct Hp as [Hp|[Hp|[]]]; [|subst p; exact Ha].
+  pose proof (sentinel_sorted zs Hsort) as Hss. rewrite <- Hzs, Hql in Hss.
+  rewrite <- app_assoc in Hss. cbn [app] in Hss.
+  pose proof (sorted_before _ _ _ _ p Hss Hp) as Hpa. cbv beta in Hpa.
+  destruct (num_le x p) eqn:Exp; [|reflexivity].
+  rewrite (num_le_trans _ _ _ Exp Hpa) in Ha. discriminate Ha.
+Qed.
+
+(* ---- necessity of the +inf sentinel: raw value leaks ------------------------------------ *)
+Local Open Scope string_scope.
+Definition leaky_state : state :=
+  fitted_state Quant (of_list [VNum 1; VNum 2]) (VStr "__NAN__") (VStr "__OTHER__") true OStr
+               [(VNum 1, "1.000e+00"); (VNum 2, "2.000e+00")].
+
+Theorem sentinel_necessary :
+  coherent [(VNum 1, "1.000e+00"); (VNum 2, "2.000e+00")] leaky_state /\ nan_ok leaky_state /\
+  ~ sentinel leaky_state /\ transform_cell leaky_state (VNum 5) = Ok (ORaw (VNum 5)).
+Proof.
+  split; [split; [|reflexivity]|split; [|split]].
+  - unfold leaky_state, fitted_state. cbn [st_order]. apply wf_of_list.
+    apply nodupb_NoDup. vm_compute. reflexivity.
+  - exists "__NAN__". split; [reflexivity|discriminate].
+  - intro Hs. destruct (Hs eq_refl) as [zs Hzs].
+    assert (E : quant_leaders leaky_state = [VNum 1; VNum 2]) by (vm_compute; reflexivity).
+    rewrite E in Hzs. apply (f_equal (@rev val)) in Hzs. rewrite rev_app_distr in Hzs.
+    cbn [rev app] in Hzs. discriminate Hzs.
+  - vm_compute. reflexivity.
+Qed.
